@@ -20,21 +20,21 @@ _TB = ("trusted: the reference models in pcfgsim/refmodel.py, the tape/replay ma
 CHECKS = {
     "C01": {"level": "exploration", "technique": "seeded deterministic simulation of the guesser over generated rulesets; per-pop order/product monitor against a reference model",
             "text": "Seeded simulation runs of the real loader + priority queue to exhaustion over tie-heavy/dyadic/denormal synthetic rulesets and all flag combinations; every pop checked for order, probability = exact product, and repeatability.",
-            "note": _TB},
-    "C02": {"level": "exploration", "technique": "seeded deterministic simulation; multiset refinement against the reference language plus per-pop heap invariants (closure)",
-            "text": "Same simulated runs; emitted multiset equals the reference language, and after every pop the heap satisfies no-duplicate / not-yet-emitted / closure invariants so a lost or doubled sub-tree is localised to the pop that caused it.",
-            "note": _TB},
+            "note": _TB + "; no schedule or fault enters this property (DESIGN §2): the simulator contributes the seeded, replayable whole-program run and the fresh-interpreter phase under other hash seeds"},
+    "C02": {"level": "exploration", "technique": "seeded deterministic simulation; multiset refinement against the reference language plus per-pop queue-state invariants (closure, nothing above the last pop)",
+            "text": "Same simulated runs; the emitted multiset equals the reference language, and after every pop (languages up to 600, no duplicate base lines) every not-yet-emitted derivation must still be a successor of some queued entry and no queued entry may exceed the last pop, so a lost sub-tree is localised to the pop that lost it; duplicates in the queue are counted as probes only.",
+            "note": _TB + "; no schedule or fault enters this property (DESIGN §2)"},
     "C04": {"level": "exploration", "technique": "seeded deterministic simulation with a recording stdout seam; per-pre-terminal expansion compared with the reference model",
             "text": "Per pre-terminal the lines actually written to the stdout seam are compared with the reference cartesian expansion (masks, adjacent alpha words, hostile values) or the reference OMEN level, and the reported count with the lines written.",
             "note": _TB + "; no schedule or fault enters this property (see DESIGN §2, fit W)"},
     "C08": {"level": "fault_enumeration", "technique": "deterministic simulation of quit/resume histories (process restarts with only the save file surviving); quit point enumerated over every pop in the thorough tier; RefResume oracle",
-            "text": "Every cycle re-enters pcfg_guesser.main() as a new process image on the scratch disk; the quit (the property's crash point) is injected after the k-th pop for sampled multi-cycle histories (quick) and for every k of each sampled world (thorough); the history is judged against the uninterrupted run: nothing lost, order kept, nothing above the saved probability, repeats only at exactly the saved probability, uuid mismatch refused; histories include a quit that is already pending when a process starts or restores.",
+            "text": "Every cycle re-enters pcfg_guesser.main() as a new process image on the scratch disk; the quit (the property's crash point) is injected after the k-th pop: every k of every world with at most 24 pre-terminals plus 5 sampled multi-cycle histories (quick), every k of every world plus 8 sampled histories (thorough); the history is judged against the uninterrupted run: nothing lost, order kept, nothing above the saved probability, repeats only at exactly the saved probability, uuid mismatch refused; histories include a quit that is already pending when a process starts or restores.",
             "note": _TB + "; the keyboard thread is a stand-in here (its scheduling is C12); flags are repeated on --load (C14 covers flags-from-save)"},
     "C15": {"level": "fault_enumeration", "technique": "deterministic simulation of quit/resume histories with the quit injected after the j-th guess of a Markov level (every j in the thorough tier), restart with only .sav/.omn surviving, cache-size knob per process",
-            "text": "Quit inside a Markov level at every position j (thorough) or sampled positions incl. first/last (quick), resume in a fresh process image with an empty memo table and an independently drawn optimizer size, followed by sampled tails (quit at a pop, inside the restored remainder, inside a later level); oracle: the restored remainder is exactly the missing strings, is never replayed later, and the rest of the run satisfies the C08 oracle.",
-            "note": _TB + "; one known finding (K1) is keyed to 'quit inside the final pre-terminal's level'"},
+            "text": "Quit inside a Markov level at every position j of one level of up to 24 strings per world (quick) or of the first three levels, every j up to 80 strings and 80 strided positions plus both ends beyond (thorough), plus sampled positions incl. first/last, resume in a fresh process image with an empty memo table and an independently drawn optimizer size, followed by sampled tails (quit at a pop, inside the restored remainder, inside a later level); oracle: the restored remainder is exactly the missing strings, is never replayed later, and the rest of the run satisfies the C08 oracle.",
+            "note": _TB + "; each cycle re-enters main() in the same interpreter with fresh grammar/queue/session/optimizer objects"},
     "C12": {"level": "exploration", "technique": "deterministic simulation: real keypress thread under a seeded baton scheduler (PCT priorities/change points at traced source lines), virtual clock, scripted stdin faults; prefix/refinement oracle against the uninterrupted run",
-            "text": "The real keyboard thread runs on a real OS thread but only while holding the scheduler's baton; every interleaving decision, stdin event (status/help/junk/quit/EOF/closed/lost/EIO/undecodable/silent), sleep and clock reading is the simulator's. A third of the cases are directed: the thread is parked right before it sets the quit flag and released exactly when the generation loop reaches a drawn labelled program point, so the quit lands at every kind of boundary; a quarter of the runs schedule a process that resumed a session interrupted inside a Markov level. Oracle: without an effective quit the stream equals the uninterrupted one; with one it is a prefix cut at a legal point no later than the end of the pre-terminal current when the flag was set, with a save file from which the rest resumes exactly; under a fair (directed) schedule a delivered 'q' must become effective.",
+            "text": "The real keyboard thread runs on a real OS thread but only while holding the scheduler's baton; every interleaving decision, stdin event (status/help/junk/quit/EOF/closed/lost/EIO/undecodable/silent), sleep and clock reading is the simulator's. A third of the cases are directed: the thread is parked right before it sets the quit flag and released exactly when the generation loop reaches a drawn labelled program point, so the quit lands at every kind of boundary; a quarter of the runs schedule a process that resumed a session interrupted inside a Markov level; a quarter of the thorough runs place a thread death (EOF / closed / EIO) at about 60 evenly spaced guess indices of one world. Oracle: without an effective quit the stream equals the uninterrupted one; with one it is a prefix cut at a legal point no later than the end of the pre-terminal current when the flag was set, with a save file from which the rest resumes exactly; under a fair (directed) schedule a delivered 'q' must become effective.",
             "note": _TB + "; pre-emption granularity = source lines of the session code and seam calls; tty/SIGINT not modelled; assumes an explicit quit takes effect by the end of the current pre-terminal (what the tool announces)"},
     "C09": {"level": "exploration", "technique": "deterministic simulation of whole process images (main() with argv) with recording stdout/stderr seams, injected save-file I/O errors, scheduled keyboard thread, seeded RNG seam; validated against real subprocesses",
             "text": "Whole pcfg_guesser.main() process images on the scratch disk; stdout text must equal the guesses recorded at the print_guess seam, byte for byte, and --limit N output must be the first min(N,total) lines for N at/around group and Markov-level boundaries; faults: failing .sav writes, status/help requests from the real scheduled thread (also in resumed processes), clock jumps up to days per guess, quit + --load --limit against --load without limit from the same saved state; honeyword modes with the simulator's RNG.",
@@ -44,7 +44,7 @@ CHECKS = {
             "note": _TB + "; order among (approximately) equal probabilities is not compared"},
     "C10": {"level": "exploration", "technique": "deterministic simulation of generator-operation histories over one shared memo table (stateful cache), cache-size knob per run, RefOmen as reference model",
             "text": "The real MarkovCracker/GuessStructure/Optimizer over synthetic and trainer-written models: each level with a fresh cache against RefOmen, then a drawn history of interleaved/suspended/repeated generators sharing one Optimizer whose size is drawn from 0..6; every generator's multiset must equal the reference regardless of what the cache held.",
-            "note": _TB + "; levels above 20000 strings are skipped"},
+            "note": _TB + "; levels above 20000 strings (3000 beyond level 8) or a cumulative 20000 per model are skipped; a deterministic call counter bounds the real generator"},
     "C11": {"level": "exploration", "technique": "seeded multi-party simulation over one scratch disk: trainer (live model), scorer (loaded from disk) and guesser (enumerating generator) evaluated on the same candidates",
             "text": "The real trainer writes a ruleset; the live trainer model, the scorer's own OMEN loader and the guesser's loader+generator are run on the same disk in one replayable process and must give every candidate string the same level (or all refuse); the per-level count file must equal the tally.",
             "note": _TB + "; no schedule or fault enters this property (DESIGN §2, fit W); guesser enumeration bounded to 15000 strings per ruleset"},
@@ -62,7 +62,7 @@ CHECKS = {
             "note": _TB + "; no schedule or fault enters (fit M: multi-party via storage)"},
     "C19": {"level": "exploration", "technique": "seeded simulation with fault injection on the training file (junk lines, undecodable bytes, unterminated last line, random byte flips) across equivalent encodings; pass-by-pass comparison and ruleset byte comparison",
             "text": "One logical list is rendered as plain / $HEX[] / count-prefixed / CRLF files with injected junk; all three passes of every variant must yield exactly the list and the rulesets must be byte-identical; random byte flips must not abort training, desynchronise the passes or leak forbidden characters into the ruleset.",
-            "note": _TB + "; fragments produced by codec line splitting are counted, not judged"},
+            "note": _TB + "; the faults are byte-level corruptions of the input file (junk lines, undecodable bytes, flips) applied before a run, nothing fails during a run; fragments produced by codec line splitting are counted, not judged"},
     "C03": {"level": "exploration", "technique": "seeded multi-party simulation over one scratch disk: trainer -> ruleset bytes -> guesser run to exhaustion, reproduction and mass-conservation oracle",
             "text": "The real trainer and the real guesser (skip_brute) are run back to back over the scratch disk for generated lists x coverage x n-gram x alphabet x encoding; every supported training password must be emitted and probability x guesses must sum to 1.",
             "note": _TB + "; no schedule or fault enters (fit W); languages above 60000 guesses are skipped"},
